@@ -32,6 +32,9 @@ Definition max_int32 : Z := 2147483647.
 Definition f32qnan : Z := 4290772992.             (* 0xffc00000 *)
 Definition f64qnan : Z := 18444492273895866368.   (* 0xfff8000000000000 *)
 Definition max_variant_array_length : Z := 65535.
+Definition max_variant_array_dimensions : Z := 32.
+(* ua.MaxNestingLevel: how many Variant / DataValue / DiagnosticInfo / ExtensionObject values may be nested *)
+Definition max_nesting_level : nat := 100.
 Definition time_offset : Z := 116444736000000000.
 
 Definition is_nan (w : nat) (bits : Z) : bool :=
@@ -287,12 +290,15 @@ Section Rec.
       if max_variant_array_length <? alen then fail EOther
       else if alen <? -1 then fail EOther
       else
+        rem <- remaining ;;
+        if rem <? alen then fail EEOF      (* every element takes at least one byte *)
+        else
         vals <- (if alen =? -1 then ret None
                  else tick (Z.to_N alen * variant_elsize tid) ;;;
                       l <- dec_n (dec_builtin tid) (Z.to_nat alen) ;; ret (Some l)) ;;
         dd <- (if bit mask 6 then
                  dl <- read_i 4 ;;
-                 if dl <? 0 then fail EOther
+                 if (dl <? 0) || (max_variant_array_dimensions <? dl) then fail EOther
                  else r <- remaining ;;
                       if r / 4 <? dl then fail EEOF
                       else tick (Z.to_N (4 * dl)) ;;;
@@ -371,26 +377,38 @@ Section Decode.
     | _ => tick (tsize e) ;;; v <- d ;; ret (VPtr (Some v))
     end.
 
+  (* the four decoders that can contain a value of their own kind: they count against ua.MaxNestingLevel *)
+  Definition nested (c : custom) : bool :=
+    match c with CVariant | CDataValue | CDiagInfo | CExtObj => true | _ => false end.
+
+  (* ua.decode at one nesting level: rec decodes what is nested one level further down; allow = false: the nesting limit is
+     reached, a nested decoder fails with StatusBadEncodingLimitsExceeded (its target was allocated by the caller) *)
+  Definition dec_level (rec : ty -> dec val) (allow : bool) : ty -> dec val :=
+    fix dec_ty (t : ty) : dec val :=
+      match t with
+      | TBool => b <- read_byte ;; ret (VBool (0 <? b))
+      | TInt w s => z <- (if s then read_i w else read_u w) ;; ret (VInt z)
+      | TFloat w => z <- read_u w ;; ret (VInt (canon_float w z))
+      | TString => s <- read_string ;; ret (VStr s)
+      | TTime => t <- read_time ;; ret (VTime t)
+      | TBytes => dec_bytes
+      | TSlice e => dec_slice (match e with TPtr x => 8 + tsize x | TCustom _ => 8 | _ => tsize e end)%N (dec_ty e)
+      | TPtr e => dec_ptr e (dec_ty e)
+      | TStruct fs => vs <- dec_fields (map dec_ty fs) ;; ret (VStruct vs)
+      | TCustom c => if nested c && negb allow then tick (csize c) ;;; fail EOther else dec_custom reg rec c
+      end.
+
+  (* fuel = the nesting levels still allowed (ua.MaxNestingLevel at the top); with 0 levels left everything that is not
+     nested is still decoded *)
   Fixpoint decode (fuel : nat) : ty -> dec val :=
     match fuel with
-    | O => fun _ _ => OutOfFuel
-    | S f =>
-      fix dec_ty (t : ty) : dec val :=
-        match t with
-        | TBool => b <- read_byte ;; ret (VBool (0 <? b))
-        | TInt w s => z <- (if s then read_i w else read_u w) ;; ret (VInt z)
-        | TFloat w => z <- read_u w ;; ret (VInt (canon_float w z))
-        | TString => s <- read_string ;; ret (VStr s)
-        | TTime => t <- read_time ;; ret (VTime t)
-        | TBytes => dec_bytes
-        | TSlice e => dec_slice (match e with TPtr x => 8 + tsize x | TCustom _ => 8 | _ => tsize e end)%N (dec_ty e)
-        | TPtr e => dec_ptr e (dec_ty e)
-        | TStruct fs => vs <- dec_fields (map dec_ty fs) ;; ret (VStruct vs)
-        | TCustom c => dec_custom reg (decode f) c
-        end
+    | O => dec_level (fun _ => fail EOther) false
+    | S f => dec_level (decode f) true
     end.
 
-  Definition fuel_for (bs : bytes) : nat := S (length bs).
+  (* the nesting levels every top-level decode starts with (ua.MaxNestingLevel); the argument is kept for the engines'
+     evaluation scripts, which were written when the model used a budget derived from the input *)
+  Definition fuel_for (bs : bytes) : nat := max_nesting_level.
 End Decode.
 
 (* ------------------------------------------------------------------ encoders *)
